@@ -470,6 +470,7 @@ class Traffic:
         # writes we can ignore
         shapes = []
         for i, info in enumerate(bind_info):
+            tensor, rank = info[:2]
             if pin_intermediate_writes(info):
                 shape = formats[tensor].tensor.getShape(authoritative=True)
                 assert shape is not None
